@@ -37,6 +37,9 @@ CONSTANTS = {
         ("DELTA_MINI_BLOCK_SIZE_I64", ENC, r"Type::INT32\s*=>\s*\d+\s*,\s*Type::INT64\s*=>\s*(\d+)\s*,", "int"),
         ("DELTA_BLOCK_MULTIPLE", DEC, r"if\s*!self\.block_size\.is_multiple_of\((\d+)\)", "int"),
         ("DELTA_MINI_BLOCK_MULTIPLE", DEC, r"if\s*!self\.values_per_mini_block\.is_multiple_of\((\d+)\)", "int"),
+        # --- LevelInfoBuilder::write_leaf bulk-fill gate
+        ("BULK_FILL_MIN_LEN", "parquet/src/arrow/arrow_writer/levels.rs", r"const\s+BULK_FILL_MIN_LEN\s*:\s*usize\s*=\s*(\d+)\s*;", "int"),
+        ("BULK_FILL_NULL_FACTOR", "parquet/src/arrow/arrow_writer/levels.rs", r"len\s*>=\s*BULK_FILL_MIN_LEN\s*&&\s*nulls\.null_count\(\)\s*\*\s*(\d+)\s*>=\s*nulls\.len\(\)", "int"),
     ],
 }
 FUNCTIONS = {}
